@@ -26,7 +26,8 @@ EXPLANATION = (
     ' (R9) supports_cas returns exactly the flag create_lock branches on, and read_file_with_etag takes content and ETag from ONE get_object response. Conditional expressions (`x = read() if supports_cas else NONE`) are branches; records (NamedTuple) carrying the ETag / the owner test are looked through.'
     ' (R10) validation compares the base with a fresh read under the lock on every path (C01.R2): a definition of the validated object that is not a read is a violation.'
     ' (R11) metadata files get fresh uuid names (C09.R1): two racers never write the same key. R3: conflict codes are exactly {PreconditionFailed, 412, ConditionalRequestConflict}.'
-    ' R3 reads error-code tables of (meaning, code) pairs and == chains.')
+    ' R3 reads error-code tables of (meaning, code) pairs and == chains.'
+    ' R2 accepts the fence at the head of the commit-point function (its conflict must leave that function unhandled); R3 decides `p is not None` for an optional parameter of a helper analysed in place from what this call site gave.')
 NOT_DECIDED = "the schedules themselves; S3's conditional-write semantics"
 
 
